@@ -175,6 +175,89 @@ CLAIMED["C19"] = dict(
          "compared at 1e-2 (forward derivative) / 2e-3 (phi/Phi); _NgdInterpTerms at 1e-4 (linear_cg accuracy).",
     technique="TLA+ branch lattice + exact rational gradient maps (TLC); replay against autograd / finite differences")
 
+CLAIMED["C02"] = dict(
+    category="model_checking",
+    text="ExactObjective.tla states the objective as (main term + log prior density of every parameter with a registered prior, at the constrained value, + every "
+         "registered added loss term) / observations per batch element. TLC proves over the whole configuration lattice (module DAG incl. a kernel shared by two "
+         "paths and multitask, batched/unbatched prior sites, added-loss states, batch shapes of rank 0-2, N, MLL/LOO/SumMLL) that the transcribed assembly code "
+         "equals it on the conventional sub-lattice (the remaining cells are the known finding), and on exact rational instances that the bordered LOO formulas "
+         "and the elimination path equal the Gaussian conditional / determinant / quadratic form. Every configuration is replayed into the real "
+         "ExactMarginalLogLikelihood / LeaveOneOutPseudoLikelihood / SumMarginalLogLikelihood with distinguishable stub priors and stub added-loss terms (term "
+         "multiset decoded exactly); the rational instances run through real ExactGP+LinearKernel against TLC's exact values (1e-9); 672 float64 cells compare "
+         "value (1e-7) and the gradient w.r.t. every raw hyperparameter (1e-6) with a torch.linalg reference built from the model's own K, m, S.",
+    design_ref="DESIGN.md section 6 (C02)",
+    note="Cholesky paths only: the stochastic CG/Lanczos path 'within its statistical tolerance' is not decided. LOO single-output. Parameters fully batched or "
+         "unbatched. observation_nan_policy belongs to C16.",
+    technique="TLC lattice enumeration + exact rational linear algebra; stub decoding replay; dense reference with autograd")
+CLAIMED["C05"] = dict(
+    category="other",
+    text="Kernels.tla enumerates the configuration lattice of Kernel.__call__ (25 kernel families x input dimension x ARD x active_dims x composition x batch x "
+         "evaluation mode x path forcing) and transcribes the dispatch predicate of RBFKernel / MaternKernel, so TLC states which branch every cell takes. All "
+         "6,992 cells are evaluated through the real kernels on seeded float64 inputs and compared at 1e-9 with the documented covariance function written "
+         "independently from the docstrings; derivative kernels are compared with autograd derivatives of the base formula entry by entry in the interleaved "
+         "layout; both branches of the two-path kernels run and a spy confirms the predicted branch. The rational parts are decided exactly by TLC and replayed at "
+         "1e-12: linear / polynomial / constant expressions with Scale / Sum / Product and active_dims, PolynomialKernelGrad entries, RBF grad and grad-grad "
+         "derivative-to-base ratios, the piecewise polynomials on rational distances, both Newton-Girard recurrences against the explicit subset sum, the "
+         "perfect-shuffle layout for n1 != n2.",
+    design_ref="DESIGN.md section 6 (C05, C19)",
+    note="Level other: the numeric dimension is sampled, so the assurance is that of a reference-formula comparison on a systematically enumerated lattice. "
+         "Trusted: checks/c05_ref.py (formulas from the docstrings), torch.autograd, mpmath. Readings where docstring and code leave room are in the evidence "
+         "assumptions. Structured kernels (Index, Multitask, LCM, Grid, InducingPoint, RFF) are C09/C06's.",
+    technique="TLA+ configuration lattice + exact rational kernel algebra (TLC), replayed into the real kernels against documented formulas")
+CLAIMED["C08"] = dict(
+    category="model_checking",
+    text="Batch.tla / Shapes.tla: TLC enumerates every parameter / data batch-shape triple of rank 0..2 over sizes {1,2,3} (2197 triples), checks the broadcasting "
+         "algebra (commutative, associative, idempotent, equal to numpy's rule, un-broadcast indices in range, unique and surjective) and 17 transcribed library "
+         "alignment sites (lengthscale, outputscale, RQ alpha, ConstantMean, LinearMean, noise, ConstantKernel, the Kernel.__call__ diag heuristic, MultitaskKernel "
+         "repeat, variational) against right-aligned broadcasting, and emits for the 1021 broadcastable triples every element b with its replica indices. The "
+         "replay compares each element of the batched output of 40 kernel configurations, 4 means, GaussianLikelihood, exact GP (prior, MLL, posterior, "
+         "predictive), SVGP (q(f), KL, ELBO), IndependentModelList and SumMarginalLogLikelihood with a freshly built non-batched replica (1e-10 kernels / 1e-7 models).",
+    design_ref="DESIGN.md section 6 (C08)",
+    note="The replica is the same library on the non-batched path (its correctness is C01/C05/C14's). Batch rank <= 2, axis sizes <= 3; derivative / grid / "
+         "inducing-point kernels and multitask likelihoods are not replayed. Real-valued parameters and data are seeded samples.",
+    technique="TLC exact-function enumeration of batch-shape triples plus metamorphic replica replay")
+CLAIMED["C14"] = dict(
+    category="model_checking",
+    text="VariationalQF.tla states the denotation (q(u) pushed through p(f|u); the KL as trace, quadratic form and determinants) next to code-shaped "
+         "transcriptions of VariationalStrategy.forward, UnwhitenedVariationalStrategy.forward, kl_mvn_mvn and the five variational distributions' forward maps; "
+         "TLC checks over exact rationals that they agree, that whitened and unwhitened strategies on the same q(u) coincide, that q = p gives the prior and KL "
+         "0, that LMC / independent wrappers equal the coefficient mixture, enumerates the 288-cell strategy x distribution x batch-shape lattice and all "
+         "training-mode call histories, and rejects a variant without the training-mode cache clear. Replay: the rational instances through the real strategies "
+         "against TLC's exact mean, full covariance and KL pieces; every lattice cell on seeded RBF / Matern models (eval: mean, full covariance, KL; train: mean, "
+         "variance, KL) against the closed form on the model's own prior; every generated history with optimizer steps.",
+    design_ref="DESIGN.md section 6 (C14)",
+    note="The jitter the strategies add counts as part of the prior the model evaluates to and is compared exactly where the code adds it; another admissible "
+         "placement is MODEL-DRIFT, not a violation. CIQ is checked at 2e-6 with tightened solver settings on 2-3 inducing points. Numeric dimension sampled at 1e-7.",
+    technique="TLC exact-rational evaluation + lattice/history enumeration, replay against closed forms")
+CLAIMED["C15"] = dict(
+    category="model_checking",
+    text="VarObjective.tla: TLC enumerates all 2,160 objective configurations (objective class, B, declared N, beta in {1, 1/2, 0}, combine_terms, 0-2 priors, 0-1 "
+         "added losses, event rank) and checks in exact rationals that the transcription of _ApproximateMarginalLogLikelihood.forward equals the definition; every "
+         "configuration is decoded on the real VariationalELBO / PredictiveLogLikelihood / GammaRobustVariationalELBO with distinguishable stubs. On integer "
+         "linear-kernel instances TLC proves that the closed-form optimal q(u) is the Gaussian conditional, that the ELBO there equals the collapsed bound and "
+         "that N*ELBO(q) = collapsed - KL(q || q_opt) on a q family; real whitened and unwhitened SVGP models must return TLC's exact ELBO pieces (1e-8). The "
+         "natural-gradient loop is a state machine (steps of size 1 and 1/2, lr-0 hyperparameter steps, depth 3): a step of size 1 reaches the optimum and every "
+         "step from the optimum is a fixed point; the real NaturalVariationalDistribution with gpytorch.optim.NGD must pass through TLC's exact q(u) after every "
+         "action. 156 seeded float64 cells are compared with the definition, the exact log marginal, collapsed - KL and the optimal q(u).",
+    design_ref="DESIGN.md section 6 (C15)",
+    note="Gaussian likelihood only; the one-step claim is checked for NaturalVariationalDistribution (TrilNatural is checked for what its docs promise). Both "
+         "placements of the Kxx jitter are accepted within n*j/(2 s^2). The inequality for all q(u) is sampled.",
+    technique="TLC exact-rational enumeration + stub decoding + replay of TLC histories/cases into the real classes")
+CLAIMED["C17"] = dict(
+    category="model_checking",
+    text="Constraint.tla model-checks a code-shaped model of one constrained parameter (setter, raw initialize, initialize by name, optimiser step, "
+         "register_constraint, sample_from_prior, setting closure) against the semantic machine (InBounds, SetThenRead, RejectIffOutside) over all operation "
+         "histories (length 2 over the full 14-value alphabet, length 4/5 over reduced alphabets, from Interval / GreaterThan / LessThan). Every history is executed "
+         "on every constrained parameter of every exported kernel, likelihood and mean found by introspection (445 cells), with scalar and tensor-valued bounds "
+         "and abstract values realised as exact bounds, 1 ulp, +-1e-300, +-1e300, +-inf and NaN, comparing the real state with the semantic expectation after "
+         "each step. The transform contract (monotone, closed range, inverse) is swept over the float range for every constraint class / transform / bound set. "
+         "ConstraintPriors.tla enumerates rational (family, parameters, point) cases; every exported prior class is compared with its documented density (mpmath) "
+         "with normalisation by quadrature; closures, sample_from_prior and the MLL prior terms are checked on real modules.",
+    design_ref="DESIGN.md section 6 (C17)",
+    note="Exact-bound and within-1e-6 assignments may go either way; the closed interval is checked with a slack of 4e-15 * max |bound|; the outcome of intersect "
+         "is left open. The float dimension is sampled (dense grid), not exhaustive.",
+    technique="TLC state machine with history replay into every constrained parameter found by introspection; float-grid contract sweep; mpmath densities at TLC-chosen rational points")
+
 PENDING = "check not built yet (build in progress; see DESIGN.md section 11)"
 NOT_APPLICABLE = {}
 
